@@ -93,37 +93,60 @@ Proof. vm_compute. repeat split. Qed.
 (* ------------------------------------------------------------------------------------------- *)
 From LY Require Import JsonText JsonDoc JsonDocP.
 
-(* [json_doc sch t jk f] is the compact rendering of the RFC 7951 value of the forest ([json_tree]: member names
-   qualified where the module changes, contiguous (leaf-)list instances as arrays, int64 / uint64 / decimal64 / strings
-   as strings, other numbers and booleans as literals, empty as [null], metadata objects per RFC 7952). [json_parse] is
-   the reader of the libyang side: the RFC 8259 grammar with the model of lyjson_string() for strings, then the
-   schema-directed conversion. Data hypotheses [JDocN .. SV_ly]: as for XML, with the value of a term constrained by
-   its JSON class (strings: characters the lexer accepts; numbers: RFC 8259 number tokens; booleans: true / false; empty:
-   no value).
+(* [json_print sch t jk sel f] is the transcription of src/printer_json.c (shrink mode, with siblings) WITH its state:
+   level, level_printed, the set of open arrays, first_leaflist. [json_doc sch t jk f] is the compact rendering of the
+   RFC 7951 value of the forest ([json_tree]: member names qualified where the module changes, contiguous (leaf-)list
+   instances as arrays, int64 / uint64 / decimal64 / strings as strings, other numbers and booleans as literals, empty as
+   [null], metadata objects per RFC 7952). [json_parse] is the reader of the libyang side: the RFC 8259 grammar with the
+   model of lyjson_string() for strings, then the schema-directed conversion. Data hypotheses [JDocN .. SV_ly]: as for
+   XML, with the value of a term constrained by its JSON class (strings: characters the lexer accepts; numbers: RFC 8259
+   number tokens; booleans: true / false; empty: no value). [parents_ltb]: the sid of a node is larger than its parent's
+   (pre-order numbering). *)
 
-   PARTIAL: the statement is about [json_doc], not about [json_print_all] (the transcription of printer_json.c WITH its
-   state: level, level_printed, open arrays, first_leaflist). What is missing is the lemma
-       json_print_all sch t jk f = json_doc sch t jk f      for canonical forests,
-   which is not proved; it is CHECKED by the correspondence run on every generated case (libyang's bytes = the
-   state machine's bytes = json_doc of the selected part, in the explicit and report-all modes; answer field D). In trim
-   mode the lemma is false of the code (finding json-trim-leaflist-meta). *)
-Theorem C01_json_doc_roundtrip_partial :
+(* with every node selected the state machine of printer_json.c prints exactly the RFC 7951 rendering *)
+Theorem C01_json_print_is_rfc7951 :
+  forall sch t jk (SV : bytes -> Prop) f,
+    tabs_okb sch t = true -> parents_ltb sch = true -> Canon sch f -> Forall (JDocN sch t jk SV) f ->
+    json_print_all sch t jk f = json_doc sch t jk f.
+Proof. exact json_print_all_doc. Qed.
+Print Assumptions C01_json_print_is_rfc7951.
+
+(* JSON, every node selected: parse (print f) = f without its default flags *)
+Theorem C01_json_doc_roundtrip :
   forall sch t jk f,
-    tabs_okb sch t = true -> Canon sch f -> Forall (JDocN sch t jk SV_ly) f ->
-    json_parse sch t jk (json_doc sch t jk f) = Some (clear_dflt f).
-Proof. exact json_doc_roundtrip_proof. Qed.
-Print Assumptions C01_json_doc_roundtrip_partial.
+    tabs_okb sch t = true -> parents_ltb sch = true -> Canon sch f -> Forall (JDocN sch t jk SV_ly) f ->
+    json_parse sch t jk (json_print_all sch t jk f) = Some (clear_dflt f).
+Proof. exact json_print_roundtrip_proof. Qed.
+Print Assumptions C01_json_doc_roundtrip.
 
 (* the hypotheses as boolean checks *)
-Theorem C01_json_doc_roundtrip_checked_partial :
+Theorem C01_json_doc_roundtrip_checked :
   forall sch t jk f,
-    tabs_okb sch t = true -> canonb sch None f = true -> forallb (jdocb sch t jk jlexb) f = true ->
-    json_parse sch t jk (json_doc sch t jk f) = Some (clear_dflt f).
+    tabs_okb sch t = true -> parents_ltb sch = true -> canonb sch None f = true -> forallb (jdocb sch t jk jlexb) f = true ->
+    json_parse sch t jk (json_print_all sch t jk f) = Some (clear_dflt f).
 Proof.
-  intros sch t jk f Ht HC HD. apply json_doc_roundtrip_proof; [exact Ht|apply canonb_spec, HC|].
+  intros sch t jk f Ht Hp HC HD. apply json_print_roundtrip_proof; [exact Ht|exact Hp|apply canonb_spec, HC|].
   rewrite forallb_forall in HD. apply Forall_forall. intros x Hx. apply (jdocb_spec sch t jk jlexb SV_ly x jlexb_spec), HD, Hx.
 Qed.
-Print Assumptions C01_json_doc_roundtrip_checked_partial.
+Print Assumptions C01_json_doc_roundtrip_checked.
+
+(* PARTIAL with respect to the node selection: for JSON only the selection of every node (report-all) is proved. For a
+   selection that is uniform on every run of (leaf-)list instances (explicit mode on validated trees) the correspondence
+   run checks on every generated case that libyang's bytes are the rendering of the selected part (answer field D); for
+   selections that are not (trim mode) the printer does NOT print the rendering of the selected part and its output is
+   not JSON: Properties_C12_doc.C12_json_trim_refuted, finding json-trim-leaflist-meta. What is proved about the
+   rendering itself holds for the selected part of any selection: *)
+Theorem C01_json_doc_roundtrip_sel_partial :
+  forall sch t jk (sel : dnode -> bool) f,
+    tabs_okb sch t = true -> Canon sch f -> Forall (JDocN sch t jk SV_ly) f ->
+    Forall (JDocN sch t jk SV_ly) (prune sel f) -> Forall (Placed sch None) (prune sel f) ->
+    json_parse sch t jk (json_doc sch t jk (prune sel f)) = Some (clear_dflt (prune sel f)).
+Proof.
+  intros sch t jk sel f Ht HC HD HD' HP'. unfold json_parse.
+  rewrite (jv_text_doc sch t jk SV_ly Ht SV_ly_key ly_rdstr (prune sel f) ly_rdstr_ok HP' HD').
+  rewrite (conv_tree sch t jk SV_ly Ht (prune sel f) HP' HD'). reflexivity.
+Qed.
+Print Assumptions C01_json_doc_roundtrip_sel_partial.
 
 (* non-vacuity: every JSON class (string with escapes and a multi-byte character, number, boolean, empty), a list with
    two instances, a leaf-list whose second instance carries metadata, metadata on a list instance and on a leaf; the state
@@ -151,7 +174,7 @@ Definition exj_forest : forest :=
 
 Example C01_json_doc_roundtrip_example :
   tabs_okb exj_sch exj_tabs = true /\ canonb exj_sch None exj_forest = true /\
-  forallb (jdocb exj_sch exj_tabs exj_kinds jlexb) exj_forest = true /\
+  forallb (jdocb exj_sch exj_tabs exj_kinds jlexb) exj_forest = true /\ parents_ltb exj_sch = true /\
   json_print_all exj_sch exj_tabs exj_kinds exj_forest = json_doc exj_sch exj_tabs exj_kinds exj_forest /\
   json_parse exj_sch exj_tabs exj_kinds (json_print_all exj_sch exj_tabs exj_kinds exj_forest) = Some (clear_dflt exj_forest).
 Proof. vm_compute. repeat split. Qed.
